@@ -376,7 +376,19 @@ def _open_udp(sim):
     return face.handler
 
 
+def _fuzz(ctx, name):
+    from ..core import run_fuzz
+    seeds = []
+    for i, (k, w) in enumerate(sorted(SEEDS.items())):
+        seeds.append(bytes([i % 4 | 0x10]) + w)
+    run_fuzz(ctx, name, 'c06', {'quick': 0, 'thorough': 60000}, seeds)
+
+
 SUBCHECKS = {
+    'fuzz': SubCheck(run_robust, external=_fuzz,
+                     note='atheris (libFuzzer) campaign, thorough tier only: the first byte selects front-end / UdpFace, bystander counts, '
+                          'delivery mode and an optional consistent outer type-length; oracle = run_robust (normal return, no '
+                          'unhandled loop error, bystanders still work); fresh application per input'),
     'framing-cuts': SubCheck(run_framing, enumerate=_framing_enum, exhaustive={'quick': True, 'thorough': True},
                              note='every single cut position and every adjacent pair of cuts of fixed streams <= 600 B (incl. truncated tails)'),
     'framing': SubCheck(run_framing, strategy=lambda tier: _framing_case(), examples={'quick': 600, 'thorough': 20000}),
